@@ -228,3 +228,21 @@ TEXTS = {
   "technique": "struct-field coverage against generated descriptor types + name-preserving flow check + enum-switch exhaustiveness with per-arm callee pairing + sibling-table agreement",
  },
 }
+
+# ---- clauses added with the second seeding round and findings F25-F27 (appended to the texts above) -------------
+_ROUND2 = {
+ "C10": " Round 2: the import-lookup error of the dependency walk is swallowed only on the true edges of errors.Is(err, fs.ErrNotExist) and datawkt.Exists (SSA, across helpers); the ls-files closure fails on an import no file provides; the dep-graph printers have no success return inside a loop over dependencies (F25).",
+ "C11": " Round 2: archive/git path lists are joined onto subdir unless subdir == \".\" on that edge alone (SUBDIR-REMAP-TOTAL); map iterations of package bufimage are order-insensitive (shared R-MAPORDER); controller writers report their Close error (shared R-CLOSE).",
+ "C12": " Round 2: index values written to a rebuilt index list are loads from the old->new table built in the same function; descriptor field stores are through clones on every feasible path (flow-sensitive COPY-MODE with correlated-guard pruning); the plugin batching key is built from namesake accessors and covers what is read from a group's representative (BATCH-KEY); the index appended to a source path is a position, never an element value (PATH-INDEX-POSITIONAL; reports the known finding F26).",
+ "C13": " Round 2: every named parameter of a validate* function is consulted by its body (VALIDATOR-COVERS; found F27: exclude paths of archive/git inputs were never validated).",
+ "C14": " Round 2: Walk/DeleteAll never route their prefix through a helper that rejects the root path; the disk bucket's atomic-writer typestate (shared with C15) keeps a failed put from changing the map.",
+ "C15": " Round 2: the module cache's archive object is written through a call that carries PutWithAtomic, whichever storage helper performs the put (ATOMIC-REQUESTED, shared with C09).",
+ "C16": " Round 2: module-relative path lists obtained from *Paths() accessors pass the join-onto-module-directory closure before being stored in an external struct; no attribute is written only on the edge where another string attribute is empty (WRITE-INDEPENDENT, 105 stores).",
+ "C17": " Round 2: the duplicate-output map is looked up and updated with Join(PluginOut, name) itself as the key (on SSA values); BATCH-KEY as for C12.",
+ "C18": " Round 2: each v1 except/override section is translated with the FileOption constants of that section; both consumers of the disable rules are evaluated (never run) on all 18 rule shapes {file option: none/this/other} x {field option: none/this/other} x {match} against the scope table (DISABLE-SCOPE).",
+ "C19": " Round 2: a RemoteToken address may not be passed to any non-module function before the lookup (net.SplitHostPort, strings.*, url.*).",
+ "C20": " Round 2: in the github-actions line, property values are written through an escaper whose replacer table covers ':' and ',' and the message through one that covers exactly '%', CR, LF (position decided by dominance of the \"::\" write); every command that reads an ErrorFormat flag and constructs a reading controller passes WithFileAnnotationErrorFormat(<that flag>).",
+}
+for _k, _v in _ROUND2.items():
+    if _k in TEXTS and _v.strip() not in TEXTS[_k]["text"]:
+        TEXTS[_k]["text"] = TEXTS[_k]["text"].rstrip() + _v
